@@ -352,6 +352,19 @@ func runF(c FCase, rec *h.Rec) {
 		}
 		rec.Class("nil_after_failed_write_was_justified")
 	}
+	// a writer that failed must not leave anything behind for the next one: the
+	// same script on a healthy sink gives the bytes it gave before the failure
+	again := c.S
+	again.Delays = nil
+	after := again.Run(20 * time.Second)
+	if after.Hung != "" || len(after.Errs) > 0 {
+		rec.Failf("the script on a healthy sink, run after another writer's sink had failed: %v %v", after.Hung, after.Errs)
+		return
+	}
+	if ms2, err := bz.Walk(after.Out); err != nil || !bytes.Equal(bz.Concat(ms2), after.Model) {
+		rec.Failf("a writer on a healthy sink, created after another writer's underlying Write #%d had failed, delivered %d bytes that do not decode to the %d bytes written to it (walker: %v)", k, len(after.Out), len(after.Model), err)
+		return
+	}
 	rec.NTIf(k < len(dry.Cuts)-1 && c.S.WC > 1)
 }
 
